@@ -172,6 +172,134 @@ def ch_routes(start, dt, n):
     return rs, fresh, shared
 
 
+# ----------------------------------------------------------------------------- elements that consume t (wave 2)
+CONSUMER_PAIRS_QUICK = [("0.3", "0.1", 12), ("0", "0.1", 12), ("1", "0.7", 8), ("0.05", "0.3", 8), ("0", "0.25", 6),
+                        ("1000.1", "0.001", 8), ("2.25", "0.2", 8), ("0.3", "0.05", 8)]
+REQ_SETS = [["total"], ["level", "total"], ["total", "level"], ["level"], ["clock", "total"], ["total", "clock", "level"]]
+
+
+def consumer_model(start, dt, n, name="cons"):
+    """TIME converter, IF(TIME >= label j) for every grid point j, a stock and a stock that accumulates it."""
+    from BPTK_Py import Model
+    from BPTK_Py import sd_functions as sd
+    S, H = D(start), D(dt)
+    m = Model(starttime=float(start), stoptime=float(dstr(S + n * H)), dt=float(dt), name=name)
+    clock = m.converter("clock"); clock.equation = sd.time()
+    for j in range(n + 1):
+        c = m.converter("late%d" % j)
+        c.equation = sd.If(sd.time() >= float(dstr(S + j * H)), 1.0, 0.0)
+    level = m.stock("level"); filling = m.flow("filling"); total = m.stock("total"); acc = m.flow("accumulation")
+    level.initial_value = 10.0
+    filling.equation = 5.0
+    level.equation = filling
+    acc.equation = level
+    total.equation = acc
+    return m
+
+
+def euler_ref(dt, n):
+    """level' = 5, level(0) = 10; total' = level, total(0) = 0 — explicit Euler with the float operations of the
+    generated functions (`previous + dt*(rate at the previous point)`)."""
+    h = float(dt)
+    lv, tt = [10.0], [0.0]
+    for _ in range(n):
+        tt.append(tt[-1] + h * (lv[-1]))
+        lv.append(lv[-1] + h * (5.0))
+    return lv, tt
+
+
+def elem_routes(start, dt, n, k):
+    """every way this check knows of computing the time of grid point k in floats."""
+    S, H = D(start), D(dt)
+    L = lambda i: float(dstr(S + i * H))
+    s, h = float(start), float(dt)
+    acc = s
+    for _ in range(k):
+        acc = acc + h
+    r = {"grid": L(k), "i*dt": s + k * h, "add": acc, "t-dt": L(k + 1) - h, "t-dt-dt": L(k + 2) - h - h}
+    if k >= 1:
+        r["t+dt"] = L(k - 1) + h
+    return r
+
+
+def ch_elems(start, dt, n):
+    """[(element kind, extra, k, route, raw float, observed)] — every element asked for at every route on a memo
+    that holds nothing yet (reset_cache before every evaluation: every route gets to be the first one), plus reads
+    of `level` after `total` was evaluated at the stop time first (values memoised by the t-dt chain of `total`)."""
+    m = consumer_model(start, dt, n)
+    lv, tt = euler_ref(dt, n)
+    depth_lv = {fbits(v): str(k) for k, v in enumerate(lv)}
+    depth_tt = {fbits(v): str(k) for k, v in enumerate(tt)}
+    S, H = D(start), D(dt)
+    out = []
+    for k in range(n + 1):
+        for rn, t in elem_routes(start, dt, n, k).items():
+            m.reset_cache()
+            out.append(("time", "", k, rn, t, repr(m.evaluate_equation("clock", t))))
+            for j in (k - 1, k, k + 1):
+                if 0 <= j <= n:
+                    m.reset_cache()
+                    out.append(("thr", dstr(S + j * H), k, rn, t, repr(m.evaluate_equation("late%d" % j, t))))
+            m.reset_cache()
+            v = m.evaluate_equation("level", t)
+            out.append(("stock", "level", k, rn, t, depth_lv.get(fbits(v), "value " + repr(v))))
+            m.reset_cache()
+            v = m.evaluate_equation("total", t)
+            out.append(("stock", "total", k, rn, t, depth_tt.get(fbits(v), "value " + repr(v))))
+    stop = float(dstr(S + n * H))
+    for first in ("total", "late%d" % n):
+        m.reset_cache()
+        m.evaluate_equation(first, stop)
+        for k in range(n + 1):
+            t = float(dstr(S + k * H))
+            v = m.evaluate_equation("level", t)
+            out.append(("stock", "level", k, "grid-after-" + first, t, depth_lv.get(fbits(v), "value " + repr(v))))
+            out.append(("time", "", k, "grid-after-" + first, t, repr(m.evaluate_equation("clock", t))))
+    return out
+
+
+def elem_expected(kind, extra, k, start, dt):
+    S, H = D(start), D(dt)
+    if kind == "time":
+        return repr(float(dstr(S + k * H)))
+    if kind == "thr":
+        return "1.0" if S + k * H >= D(extra) else "0.0"
+    return str(k)
+
+
+def ch_reqset(start, dt, n):
+    """run_scenarios on a fresh model for every requested set: {set: (index labels, {column: bits})}."""
+    out = {}
+    with Bptk() as b:
+        for i, _ in enumerate(REQ_SETS):
+            b.register_model(consumer_model(start, dt, n, name="rq%d" % i))
+        for i, eqs in enumerate(REQ_SETS):
+            df = b.run_scenarios(scenario_managers=["smRq%d" % i], scenarios=["base"], equations=list(eqs), series_names={})
+            out[",".join(eqs)] = (labels(df.index), {c: [fbits(v) for v in df[c]] for c in eqs})
+    return out
+
+
+def reqset_expected(start, dt, n):
+    lv, tt = euler_ref(dt, n)
+    g = grid(start, dt, n)
+    cols = {"level": [fbits(v) for v in lv], "total": [fbits(v) for v in tt], "clock": [fbits(float(x)) for x in g]}
+    return ",".join(g), cols
+
+
+def reqset_compare(start, dt, n):
+    """first (set, what, observed, expected) that differs from the Euler solution on the decimal grid, or None."""
+    obs = ch_reqset(start, dt, n)
+    gi, cols = reqset_expected(start, dt, n)
+    for eqs, (idx, data) in obs.items():
+        if idx != gi:
+            return eqs, "index", idx, gi
+        for c, bits in data.items():
+            if bits != cols[c]:
+                k = next((i for i, (a, b) in enumerate(zip(bits, cols[c])) if a != b), min(len(bits), len(cols[c])))
+                return eqs, f"{c}[{k}]", ",".join(repr(from_fbits(x)) for x in bits), ",".join(repr(from_fbits(x)) for x in cols[c])
+    return None
+
+
 # ----------------------------------------------------------------------------- probes
 def probe():
     facts = {}
@@ -245,10 +373,22 @@ def check_channel(channel, start, dt, n, calls=None):
         obs = ";".join("/".join(f"{fresh[r][k][0]}:{fresh[r][k][1]}" for r in range(3)) for k in range(n + 1))
         exp = ";".join("/".join([f"{fbits(float(g[k]))}:{fresh[0][k][1]}"] * 3) for k in range(n + 1))
         return obs, exp
+    if channel == "elems":
+        rows = ch_elems(start, dt, n)
+        obs = ";".join(f"{kind}{'(' + extra + ')' if extra else ''}@{k}/{rn}={o}" for kind, extra, k, rn, t, o in rows)
+        exp = ";".join(f"{kind}{'(' + extra + ')' if extra else ''}@{k}/{rn}={elem_expected(kind, extra, k, start, dt)}"
+                       for kind, extra, k, rn, t, o in rows)
+        return obs, exp
+    if channel == "reqset":
+        d = reqset_compare(start, dt, n)
+        if d is None:
+            return "equal", "equal"
+        return f"equations=[{d[0]}] {d[1]}: {d[2]}", f"equations=[{d[0]}] {d[1]}: {d[3]}"
     raise ValueError(channel)
 
 
-KEYS = {"timerange-incl": "timerange-labels", "timerange-excl": "timerange-labels", "run": "sim-bound-overshoot",
+KEYS = {"elems": "route-dependent-value", "reqset": "requested-set-dependent-value",
+        "timerange-incl": "timerange-labels", "timerange-excl": "timerange-labels", "run": "sim-bound-overshoot",
         "plotsc": "sim-bound-overshoot", "plot": "plot-bound-overshoot", "session": "session-clock-drift",
         "session-log": "session-clock-drift", "routes": "route-dependent-value"}
 
@@ -271,7 +411,7 @@ def run(chk):
     ok, why = chk.prove(gen_lean(facts))
     chk.cov["trusted_base"] = [
         "Lean 4.33 kernel; axioms propext, Classical.choice, Quot.sound (audited per run via #print axioms); `decide +kernel` on Float literals only in the two Float witnesses",
-        "hand-written model lean/Bptk/Core/C05.lean of util.floating_point (precision_and_scale, normalize, timerange), Model.memoize key, SdSimulation.__simulate / Element.plot bound, bptk.run_step clock; tied to /repo by three probes and the exhaustive lattice correspondence of this check",
+        "hand-written model lean/Bptk/Core/C05.lean of util.floating_point (precision_and_scale, normalize, timerange), Model.memoize key and evaluation AT the key (TIME, thresholds, the stock recursion t <= starttime / t-dt), SdSimulation.__simulate / Element.plot bound, bptk.run_step clock; tied to /repo by three probes and the exhaustive lattice correspondence of this check",
         "floating point enters the theorems as an arbitrary rounding function with relative error <= u (hypothesis); that IEEE-754 double rounding satisfies it with u = 2^-53, that CPython's round(x, n) is the correctly rounded half-even decimal rounding of the exact binary value, that int->float conversion of the step count is exact (< 2^53), and that repr of the double nearest to a decimal of <= 15 significant digits prints that decimal",
         "precision_and_scale is modelled in exact arithmetic on the decimal value; on doubles the code computes the same digits as long as |x| has at most 14 significant decimal digits (validated on the sample list and the lattice, not proved)",
         "pandas frame assembly (index = dictionary keys in insertion order) — checked only through the correspondence on returned frames",
@@ -284,7 +424,12 @@ def run(chk):
                        "inclusive and exclusive, run_scenarios index, plot_scenarios(return_df) index, Element.plot(return_df) index "
                        "(all n), stepwise session keys (n = nmax with nmax+3 calls, plus every n in the session subset with n+3 calls), "
                        "session_results keys, memoize route independence at every grid point k <= nmax by i*dt / repeated + / t-dt chain "
-                       "(fresh model per route and shared model); a case = (channel, start, dt, n); non-trivial = dt not a power of two or start not an integer")
+                       "(fresh model per route and shared model); a case = (channel, start, dt, n); non-trivial = dt not a power of two or start not an integer. "
+                       "Wave 2 stream `elems`: TIME, IF(TIME>=grid point j) for j = k-1,k,k+1, a stock and a stock of that stock, asked for at grid point k "
+                       "through six float routes (label, i*dt, repeated +, t-dt, t-dt-dt, t+dt) each on an EMPTY memo (reset_cache), plus reads after `total` "
+                       "was evaluated first; pairs (start, dt, n) incl. start 0.3 / dt 0.1, 1/0.7, 0.05/0.3, 1000.1/0.001 "
+                       "(thorough: all starts + 0.3 x all dts, n = 20); stream `reqset`: run_scenarios with equations in "
+                       f"{REQ_SETS} on fresh models, every column bit-identical to the Euler solution on the decimal grid")
     chk.cov["exhaustive"] = True
     req, real, meta = [], [], []      # protocol lines, implementation's answers, (channel,start,dt,n)
     def add(line, answer, m):
@@ -303,6 +448,29 @@ def run(chk):
         add(f"scale {x}", f"{p} {s}", ("scale", x, "", 0))
         dist["scale"] += 1
         chk.case(("scale", x), nontrivial=True)
+    # --- wave 2: elements that consume t directly (TIME, IF(TIME >= grid point), stocks incl. non-binary start
+    #     times) at every route on an empty memo, and requested-set variations of run_scenarios
+    pairs = CONSUMER_PAIRS_QUICK if chk.quick else [(st, dt, 20) for st in STARTS + ["0.3"] for dt in DTS]
+    dist["elem_evals"] = 0; dist["reqset_runs"] = 0
+    for start, dt, n in pairs:
+        S_, H_ = D(start), D(dt)
+        for kind, extra, k, rn, t, o in ch_elems(start, dt, n):
+            add(f"elem {start} {dt} {kind} {fbits(t)}" + (f" {extra}" if kind == "thr" else ""), o, ("elems", start, dt, k))
+            exp = elem_expected(kind, extra, k, start, dt)
+            if o != exp:
+                what = {"time": "TIME", "thr": f"IF(TIME>={extra},1,0)", "stock": f"stock '{extra}' (Euler steps taken)"}[kind]
+                ref("elems", start, dt, n, f"{what} at grid point {k} reached as {rn} ({t!r}) = {o}",
+                    f"{what} at grid point {k} reached as {rn} ({t!r}) = {exp}", {"k": k, "route": rn, "element": what})
+            dist["elem_evals"] += 1
+            chk.case(("elems", start, dt, kind, extra, k, rn), nontrivial=fbits(t) != fbits(float(dstr(S_ + k * H_))),
+                     sample=(f"elem start={start} dt={dt}: stock level at {t!r} (route {rn} to grid point {k}) took {o} steps"
+                             if (kind, extra, k, rn, start) == ("stock", "level", 0, "t-dt", "0.3") else None))
+        d = reqset_compare(start, dt, n)
+        if d is not None:
+            ref("reqset", start, dt, n, f"equations=[{d[0]}] {d[1]}: {d[2]}", f"equations=[{d[0]}] {d[1]}: {d[3]}",
+                {"requested": d[0]})
+        dist["reqset_runs"] += len(REQ_SETS)
+        chk.case(("reqset", start, dt, n), nontrivial=True)
     sess_subset = [0, 1, 2, 3, 7, 8, 12] if chk.quick else list(range(0, 41)) + [57, 100, 143]
     budget_hit = False
     for start in STARTS:
@@ -383,7 +551,7 @@ def run(chk):
         diff = min(len(model), len(real))
     # --- decide
     for key, (channel, start, dt, n, obs, exp, extra) in ref_fail.items():
-        fd = first_diff(obs, exp, ";" if channel.startswith("session") and channel != "session-log" else ",")
+        fd = first_diff(obs, exp, ";" if (channel.startswith("session") and channel != "session-log") or channel in ("elems", "reqset") else ",")
         rp = {"channel": channel, "start": start, "dt": dt, "n": n, "observed": obs[:600], "expected": exp[:600],
               "first_difference": fd}
         rp.update(extra or {})
